@@ -49,6 +49,10 @@ def run_property(prop: str, tier: str, root: str | None = None, write: bool = Tr
         extra = {}
         mod = None
     expl = getattr(mod, "EXPLANATION", "") if mod else "analysis failed"
+    if mod:
+        expl += (" NET (generic nets over the modules this property is anchored in, pstatic/unused.py): no parameter and no plainly assigned local that nothing reads "
+                 "(frozen interface-conformance exceptions), no loop variable read after its loop beyond the confirmed sites, and every rejection over an array comparison is "
+                 "existential (np.any(violation) / not np.all(requirement)).")
     assum = getattr(mod, "ASSUMPTIONS", []) if mod else []
     return rep.finish(seed, extra, expl, assum)
 
